@@ -57,6 +57,7 @@ type Prog struct {
 	StableTypes       []string
 	muOwner           map[string]muOwnerInfo
 	capImm            map[*ssa.FreeVar]bool
+	stableFa          map[string]int
 	ContractFilesUsed []string
 	MirrorUsed        []string
 }
